@@ -764,15 +764,9 @@ class H2Connection:
                     (max_open_streams, self.open_outbound_streams)
                 )
 
-        self.state_machine.process_input(ConnectionInputs.SEND_HEADERS)
-        stream = self._get_or_create_stream(
-            stream_id, AllowedStreamIDs(self.config.client_side)
-        )
-        frames = stream.send_headers(
-            headers, self.encoder, end_stream
-        )
-
-        # We may need to send priority information.
+        # We may need to send priority information. Check it before the
+        # header block is encoded: encoding changes the compression context
+        # for good, so nothing may fail after it.
         priority_present = (
             (priority_weight is not None) or
             (priority_depends_on is not None) or
@@ -783,6 +777,19 @@ class H2Connection:
             if not self.config.client_side:
                 raise RFC1122Error("Servers SHOULD NOT prioritize streams.")
 
+            _check_priority_arguments(
+                stream_id, priority_weight, priority_depends_on
+            )
+
+        self.state_machine.process_input(ConnectionInputs.SEND_HEADERS)
+        stream = self._get_or_create_stream(
+            stream_id, AllowedStreamIDs(self.config.client_side)
+        )
+        frames = stream.send_headers(
+            headers, self.encoder, end_stream
+        )
+
+        if priority_present:
             headers_frame = frames[0]
             headers_frame.flags.add('PRIORITY')
             frames[0] = _add_frame_priority(
@@ -2043,6 +2050,23 @@ def _add_frame_priority(frame, weight=None, depends_on=None, exclusive=None):
     frame.exclusive = exclusive
 
     return frame
+
+
+def _check_priority_arguments(stream_id, weight, depends_on):
+    """
+    Validates priority information for a stream the way _add_frame_priority
+    does, without building a frame: raises ProtocolError for a
+    self-dependency or a weight outside 1..256.
+    """
+    if depends_on == stream_id:
+        raise ProtocolError(
+            "Stream %d may not depend on itself" % stream_id
+        )
+
+    if weight is not None and (weight > 256 or weight < 1):
+        raise ProtocolError(
+            "Weight must be between 1 and 256, not %d" % weight
+        )
 
 
 def _decode_headers(decoder, encoded_header_block):
